@@ -130,6 +130,7 @@ func hostileWorld(w *world) {
 }
 
 func runC11() {
+	relockNeverReturns = true
 	r := &rng{s: *seed}
 	s := &Summary{Rule: "every inbox / outbox / GET scenario type with one member of the request body, of a stored value or of a dereferenced document removed / replaced by null, empty values, numbers, arrays, objects without id, IRIs of missing / ill-typed / incomplete documents; every run under recover and a watchdog; plus the decoder on mutated vocabulary documents and random byte strings", Dist: map[string]interface{}{}}
 	var violations []Violation
@@ -146,6 +147,20 @@ func runC11() {
 			runaways++
 		}
 		sig := "C11:" + kind + ":" + sc.Family + ":" + firstLine(res.PanicMsg)
+		if strings.HasPrefix(res.PanicMsg, "relock: Lock of ") { // a request that never returns under a lock that is not re-entrant
+			id := strings.SplitN(strings.TrimPrefix(res.PanicMsg, "relock: Lock of "), " ", 2)[0]
+			addressed := false
+			for _, p := range []string{"to", "cc", "audience"} {
+				if b, err := json.Marshal(sc.Body[p]); err == nil && strings.Contains(string(b), "\""+id+"\"") {
+					addressed = true
+				}
+			}
+			kind = "never-returns"
+			sig = "C11:relock:" + sc.Family
+			if addressed && sc.Entry == "postinbox" && sc.World != nil && sc.World.Owned[id] {
+				sig = "C11:relock-forwarding-collection" // finding F2b seen from C11
+			}
+		}
 		if len(sig) > 150 {
 			sig = sig[:150]
 		}
